@@ -8,7 +8,7 @@ EXTENDS ErrContract
 
 VARIABLE cell
 Cell(kind, o) == [kind |-> kind, o |-> o, classify |-> [report |-> Classify(kind, o).report, cont |-> Classify(kind, o).cont],
-                  contract |-> Contract(kind, o), need |-> Need(kind), never |-> NeverFound(o), refines |-> RefinesCell(kind, o)]
+                  contract |-> Contract(kind, o), need |-> Need(kind), never |-> NeverFound(o) \ MayCarry(kind), refines |-> RefinesCell(kind, o)]
 Init == cell \in {Cell(kind, o) : kind \in Kinds, o \in Opts}
 Next == UNCHANGED cell
 Spec == Init /\ [][Next]_cell
